@@ -1,6 +1,7 @@
 import LenaModel.Model.C12
 import LenaModel.Lemmas.C12
 import LenaModel.Lemmas.C12Hist
+import LenaModel.Lemmas.C12Graph
 /-! # C12 — property theorems (histogram and graph arithmetic, scaling and conversions keep every cell)
 
 All theorems are about the executable model `LenaModel/Model/C12.lean` (+ `NArr.lean`) over exact rationals, for
@@ -682,5 +683,119 @@ example : iterCells exHist (some [(some (-1), none)]) = .error .lenaValueError :
 example : iterCells exHist (some [(none, some 3)]) = .error .lenaValueError :=
   iter_cells_bad_range _ _ _ (by simp [exHist, Edges.axes])
     ⟨0, [0, 1, 3], (none, some 3), by simp [exHist, Edges.axes], by simp, by simp [ValidRange]⟩
+
+/-! ## Rescaling a graph
+
+"Rescaling … a graph to s multiplies exactly … the last coordinate and its error columns by s/old scale, leaves … the
+other coordinates untouched, makes the … scale equal s … and raises LenaValueError for a zero or unknown scale". -/
+
+/-- `field` is an error field of the coordinate `coord`: it is named `error_<coord>` or `error_<coord>_<suffix>` -/
+def ErrorFieldOf (coord field : Name) : Prop :=
+  ∃ rest, field = "error_".toList ++ rest ∧ (rest = coord ∨ ∃ tail, rest = coord ++ '_' :: tail)
+
+theorem errMatches_iff (f c : Name) (hf : isErrField f = true) :
+    errMatches (f.drop 6) c = true ↔ ErrorFieldOf c f := by
+  obtain ⟨rest, rfl⟩ := (isErrField_iff f).1 hf
+  have hd : (errorPrefix ++ rest).drop 6 = rest := by
+    rw [← errorPrefix_length, List.drop_left]
+  rw [hd]
+  simp only [errMatches, Bool.or_eq_true, beq_iff_eq, List.isPrefixOf_iff_prefix]
+  constructor
+  · rintro (h | ⟨t, ht⟩)
+    · exact ⟨rest, rfl, Or.inl h⟩
+    · exact ⟨rest, rfl, Or.inr ⟨t, by simpa using ht.symm⟩⟩
+  · rintro ⟨rest', h1, h2⟩
+    have : rest' = rest := List.append_cancel_left h1.symm
+    subst this
+    rcases h2 with h | ⟨t, ht⟩
+    · exact Or.inl h
+    · exact Or.inr ⟨t, by simp [ht]⟩
+
+/-- a graph whose scale is unknown or zero cannot be rescaled: `LenaValueError` -/
+theorem graph_scale_unknown_or_zero (g : Graph) (s : Q) (h : g.scale = none ∨ g.scale = some 0) :
+    graphSetScale g s = .error .lenaValueError := by
+  rcases h with h | h <;> simp [graphSetScale, h]
+
+/-- `graph.scale(s)` on a constructed graph with known non-zero scale `c` returns, stores the scale `s`, keeps
+field names, dimension and the number of columns, multiplies by `s/c` exactly the last coordinate column
+(position `dim - 1`) and the columns whose field is an error field of the last coordinate, and leaves every other
+column untouched.  Any number of coordinates, any error fields, any valid naming. -/
+theorem graph_scale (coords : List (List Q)) (fn : FieldNamesArg) (sc : Option Q) (g : Graph)
+    (hg : mkGraph coords fn sc = .ok g) (c s : Q) (hc : sc = some c) (hc0 : c ≠ 0) :
+    ∃ g' last, graphSetScale g s = .ok g' ∧ g.fieldNames[g.dim - 1]? = some last ∧
+      g'.scale = some s ∧ g'.fieldNames = g.fieldNames ∧ g'.dim = g.dim ∧ g'.coords.length = coords.length ∧
+      ∀ (i : Nat) (arr : List Q) (f : Name), coords[i]? = some arr → g.fieldNames[i]? = some f →
+        ((i + 1 = g.dim ∨ ErrorFieldOf last f) → g'.coords[i]? = some (arr.map (fun v => s / c * v))) ∧
+        (¬ (i + 1 = g.dim ∨ ErrorFieldOf last f) → g'.coords[i]? = some arr) := by
+  obtain ⟨inv, hco, hsc, _, _, _, _⟩ := mkGraph_inv coords fn sc g hg
+  have hdim0 : g.dim ≠ 0 := by have := inv.dim_pos; omega
+  have hlt : g.dim - 1 < g.fieldNames.length := by have := inv.dim_parsed; have := inv.dim_pos; omega
+  have hlast : g.fieldNames[g.dim - 1]? = some (g.fieldNames[g.dim - 1]) := List.getElem?_eq_getElem hlt
+  refine ⟨{ g with
+      coords := rescaleCoords (s / c) ((g.dim - 1) :: errIndices g.dim g.fieldNames[g.dim - 1] g.parsed 0) g.coords 0,
+      scale := some s },
+    g.fieldNames[g.dim - 1], ?_, hlast, rfl, rfl, rfl, ?_, ?_⟩
+  · simp [graphSetScale, hsc, hc, hc0, hdim0, hlast]
+  · simp [rescaleCoords_length, hco]
+  · intro i arr f harr hf
+    have harr' : g.coords[i]? = some arr := by rw [hco]; exact harr
+    simp only [rescaleCoords_getElem?, harr', Option.map_some, Nat.add_zero, Option.some.injEq]
+    -- membership in the index list ↔ the column belongs to the last coordinate
+    have hlast_in : g.fieldNames[g.dim - 1] ∈ g.fieldNames.take g.dim := by
+      rw [List.mem_take_iff_getElem]
+      exact ⟨g.dim - 1, by have := inv.dim_pos; omega, rfl⟩
+    have key : (i = g.dim - 1 ∨ ∃ j p, g.parsed[j]? = some p ∧ p.coord = g.fieldNames[g.dim - 1] ∧ i = j + 0 + g.dim) ↔
+        (i + 1 = g.dim ∨ ErrorFieldOf g.fieldNames[g.dim - 1] f) := by
+      constructor
+      · rintro (h | ⟨j, p, hp, hpc, hi⟩)
+        · left; have := inv.dim_pos; omega
+        · right
+          have hi' : i = g.dim + j := by omega
+          subst hi'
+          obtain ⟨p', hp1, _, hp3⟩ := inv.parsed_spec j f hf
+          rw [hp] at hp1
+          cases hp1
+          have hferr : isErrField f = true :=
+            inv.error_fields f (by
+              rw [List.mem_drop_iff_getElem]
+              have := (List.getElem?_eq_some_iff.1 hf)
+              obtain ⟨hlen, hget⟩ := this
+              exact ⟨j, by omega, hget⟩)
+          rw [← errMatches_iff f _ hferr]
+          have : g.fieldNames[g.dim - 1] ∈ (g.fieldNames.take g.dim).filter (errMatches (f.drop 6)) := by
+            rw [hp3, hpc]; simp
+          exact (List.mem_filter.1 this).2
+      · rintro (h | h)
+        · left; omega
+        · right
+          -- `f` is an error field, so it is not among the coordinate fields
+          have hferr : isErrField f = true := by
+            obtain ⟨rest, hr, _⟩ := h
+            exact (isErrField_iff f).2 ⟨rest, hr⟩
+          have hige : g.dim ≤ i := by
+            rcases Nat.lt_or_ge i g.dim with hlt' | hge
+            · have : f ∈ g.fieldNames.take g.dim := by
+                rw [List.mem_take_iff_getElem]
+                obtain ⟨hlen, hget⟩ := List.getElem?_eq_some_iff.1 hf
+                exact ⟨i, by omega, hget⟩
+              have := inv.coord_fields f this
+              simp [hferr] at this
+            · exact hge
+          obtain ⟨j, rfl⟩ : ∃ j, i = g.dim + j := ⟨i - g.dim, by omega⟩
+          obtain ⟨p, hp1, _, hp3⟩ := inv.parsed_spec j f hf
+          refine ⟨j, p, hp1, ?_, by omega⟩
+          have hm := (errMatches_iff f _ hferr).2 h
+          have : g.fieldNames[g.dim - 1] ∈ (g.fieldNames.take g.dim).filter (errMatches (f.drop 6)) :=
+            List.mem_filter.2 ⟨hlast_in, hm⟩
+          rw [hp3] at this
+          exact (List.mem_singleton.1 this).symm
+    have hcont : (((g.dim - 1) :: errIndices g.dim g.fieldNames[g.dim - 1] g.parsed 0).contains i = true) ↔
+        (i = g.dim - 1 ∨ ∃ j p, g.parsed[j]? = some p ∧ p.coord = g.fieldNames[g.dim - 1] ∧ i = j + 0 + g.dim) := by
+      simp only [List.contains_eq_mem, List.mem_cons, mem_errIndices, decide_eq_true_eq]
+    constructor
+    · intro h
+      rw [if_pos (hcont.2 (key.2 h))]
+    · intro h
+      rw [if_neg (fun h' => h (key.1 (hcont.1 h')))]
 
 end Lena.C12
